@@ -21,7 +21,7 @@ EvCirc ==
     /\ sb' = (<<"R">> :> 1) @@ [x \in {<<"B", w>> : w \in 0..(Ev.nin - 1)} |-> Ev.sin[x[2] + 1]]
     /\ lab' = [w \in 0..(Ev.nin - 1) |-> <<{<<"B", w>>}, XorL({<<"B", w>>}, R)>>]
     /\ inp' = [w \in 0..(Ev.nin - 1) |-> Ev.inp[w + 1]]
-    /\ phase' = "garble" /\ g' = 1 /\ tab' = <<>> /\ gid' = 0 /\ eid' = 0 /\ act' = <<>>
+    /\ phase' = "garble" /\ g' = 1 /\ tab' = <<>> /\ gid' = 0 /\ eid' = 0 /\ act' = <<>> /\ ekey' = KeyG
 
 EvGGate ==
     /\ IsEvent("ggate")
